@@ -146,7 +146,7 @@ fn compute_effects(
     mut halt: bool,
     compute_results: Vec<(Gas, usize, Memory, bool)>,
 ) -> Result<(usize, Gas, bool), MemoryError> {
-    let mut total_gas = 0;
+    let mut total_gas: Gas = 0;
 
     let mut memory_to_alloc = 0;
     compute_results
@@ -159,7 +159,7 @@ fn compute_effects(
     // concat compute memories to parent memory one by one
     compute_results.iter().for_each(|(gas, c_pc, mem, h)| {
         pc = std::cmp::max(pc, *c_pc);
-        total_gas += gas;
+        total_gas = total_gas.saturating_add(*gas);
         memory.store_range(memory_pointer, mem).expect("for now");
         memory_pointer += mem.len().unwrap();
         halt |= h;
